@@ -195,6 +195,49 @@ func c01Scenarios(tier string) []*Scenario {
 	scs = append(scs, c01M2(tier)...)
 	scs = append(scs, c01M3(tier)...)
 	scs = append(scs, c01M4(tier)...)
+	scs = append(scs, c01M5(tier)...)
+	return scs
+}
+
+// M5: termination while a receiver is in the middle of a read, at the granularity of every
+// synchronisation operation of the read / accept / close / cancel paths: the cause strikes
+// at every point and one further deviation places any thread anywhere.
+func c01M5(tier string) []*Scenario {
+	var scs []*Scenario
+	focus := []string{"readMsgLocked", "readMsg", "RecvMsg", "dequeue", "accept", "close", "cancel", "handleClosure", "halfClose", "finishStream",
+		"acceptClientFrame", "acceptServerFrame", "serveStream", "cancelStream", "serve", "recvLoop"}
+	type c struct {
+		cfg   TunCfg
+		fault string
+	}
+	cases := []c{{TunCfg{}, "chclose"}}
+	if tier == "thorough" {
+		cases = append(cases, c{TunCfg{}, "cancel:r1"}, c{TunCfg{ServerNoFC: true}, "chclose"}, c{TunCfg{Reverse: true}, "stop"}, c{TunCfg{Reverse: true}, "cancel:r1"})
+	}
+	for _, cs := range cases {
+		for _, revOrder := range []bool{false, true} {
+			cs, revOrder := cs, revOrder
+			wl := StdWorkload("r1", 1, "Bidi", []int{3, 3}, []int{3})
+			scs = append(scs, &Scenario{
+				Name: fmt.Sprintf("c01/m5/%s/Bidi/%s/rev=%v", cs.cfg, cs.fault, revOrder), Prop: "C01", Heavy: true,
+				Desc: fmt.Sprintf("Bidi RPC (two requests, one response) over a %s tunnel; cause %q strikes at every point and one further deviation places any thread anywhere, with every synchronisation operation of the read / accept / close / cancel paths as a scheduling point", cs.cfg, cs.fault),
+				Opt:  Options{Level: "focus", Focus: focus, Bound: 2, DevOK: oneFaultAnyOrder, RevOrder: revOrder},
+				Run: func(w *World) {
+					t := w.OpenTunnel(cs.cfg)
+					if t.StartErr != nil {
+						return
+					}
+					w.StartFault(t, cs.fault)
+					w.Join(w.StartCallers(t, []Workload{wl})...)
+					t.Close()
+				},
+				Check: func(w *World, x *Exec) []Violation {
+					vs := NoHang(x, "C01")
+					return append(vs, msgOracle(w, "C01", []string{"r1"})...)
+				},
+			})
+		}
+	}
 	return scs
 }
 
